@@ -212,6 +212,9 @@ pub struct ZipFile<'a> {
     data: Cow<'a, ZipFileData>,
     crypto_reader: Option<CryptoReader<'a>>,
     reader: ZipFileReader<'a>,
+    /// Set once a read has failed with anything but a retryable error: the decoder stack is then in
+    /// an unspecified state and must not be driven any further.
+    failed: bool,
 }
 
 fn find_content<'a>(
@@ -624,6 +627,7 @@ impl<R: Read + io::Seek> ZipArchive<R> {
                     crypto_reader: None,
                     reader: ZipFileReader::Raw(find_content(data, reader)?),
                     data: Cow::Borrowed(data),
+                    failed: false,
                 })
             })
     }
@@ -661,6 +665,7 @@ impl<R: Read + io::Seek> ZipArchive<R> {
                 crypto_reader: Some(crypto_reader),
                 reader: ZipFileReader::NoReader,
                 data: Cow::Borrowed(data),
+                failed: false,
             })),
             Err(e) => Err(e),
             Ok(Err(e)) => Ok(Err(e)),
@@ -1019,11 +1024,28 @@ impl<'a> Read for ZipFile<'a> {
         if buf.is_empty() {
             return Ok(0);
         }
-        let count = self.get_reader().read(buf)?;
-        if count == 0 {
-            self.reader.finish_crypto()?;
+        if self.failed {
+            return Err(io::Error::new(
+                io::ErrorKind::Other,
+                "an earlier read of this file failed",
+            ));
         }
-        Ok(count)
+        let mut res = self.get_reader().read(buf);
+        if let Ok(0) = res {
+            res = self.reader.finish_crypto().map(|()| 0);
+        }
+        if let Err(e) = &res {
+            // `Interrupted` and `WouldBlock` come straight from the underlying reader and may be
+            // retried. After any other error the decoders must not be asked to go on: flate2, for
+            // one, never returns when it is fed more input after a premature end of input.
+            if !matches!(
+                e.kind(),
+                io::ErrorKind::Interrupted | io::ErrorKind::WouldBlock
+            ) {
+                self.failed = true;
+            }
+        }
+        res
     }
 }
 
@@ -1172,6 +1194,7 @@ pub fn read_zipfile_from_stream<'a, R: io::Read>(
         data: Cow::Owned(result),
         crypto_reader: None,
         reader: make_reader(result_compression_method, result_crc32, crypto_reader),
+        failed: false,
     }))
 }
 
